@@ -356,6 +356,10 @@ class PageTemplate(BaseTemplate):
         if 'repeat' not in _kw:
             _kw['repeat'] = RepeatDict({})
 
+        # The loops find the dictionary under an internal name; the
+        # variable ``repeat`` may be redefined by the template.
+        setdefault("__repeat", _kw['repeat'])
+
         return super().render(**_kw)
 
     def include(self, *args: Any, **kwargs: Any) -> None:
